@@ -366,7 +366,7 @@ register(C06())
 # C08 / C09 — accepted streams: the two parsers agree; pictures are well formed
 # --------------------------------------------------------------------------
 
-ACCEPT_KINDS = ["f_coeff"] * 6 + ["flip", "flip", "f_lenbyte", "f_lenbyte", "f_bool", "f_uint", "f_fixed", "set", "f_picnum", "burst", "zero", "f_unit_dup", "f_unit_drop", "append"]
+ACCEPT_KINDS = ["f_coeff"] * 6 + ["flip", "flip", "f_lenbyte", "f_lenbyte", "f_bool", "f_uint", "f_fixed", "set", "f_picnum", "burst", "zero", "f_unit_dup", "f_unit_drop", "append", "f_ld_resize", "f_ld_resize"]
 
 
 def h_quant_factor(i):
